@@ -88,7 +88,7 @@ func writeEvidence(id, tier string, seed int, prog *interp.Program, results []*i
 	cov["solver_queries"] = queries
 	cov["solver_unknown"] = unknown
 	cov["solver_time_ms"] = round2(solverMS)
-	cov["solver"] = "z3 4.8.12 (z3 -in, incremental push/pop)"
+	cov["solver"] = "z3 5.1.0 (z3-new -in, incremental push/pop)"
 	cov["interpreted_instructions"] = steps
 	cov["entries"] = entries
 	cov["functions_encoded_repo"] = sortedKeys(funcs, 400)
